@@ -453,7 +453,7 @@ def gen_ipc(rng):
 
 def gen_cdm(rng):
     k = rng.randint(1, 5)
-    style = rng.choice(["doc", "effective", "effective", "wide", "boundary"])
+    style = rng.choice(["doc", "effective", "effective", "wide", "boundary", "strong", "strong"])
     p = {"beta": rng.choice([0.3, 0.0, 1.0, round(rng.random(), 4)]),
          "max_electron_volume": rng.choice([1e-10, 1.0, 10 ** rng.uniform(-15, 0)]),
          "transfer_period": rng.choice([1e-4, 10.0, 10 ** rng.uniform(-7, 1)]),
@@ -470,6 +470,17 @@ def gen_cdm(rng):
         tr = [t * 10 ** rng.uniform(-2, 2) for _ in range(k)]
         nt = [10 ** rng.uniform(-3, 4) / vg for _ in range(k)]
         sg = [10 ** rng.uniform(-3, 2) * 2.0 * vg / (t * 1.6e7 * fwc ** p["beta"]) for _ in range(k)]
+    elif style == "strong":
+        # heavily irradiated device: every species alone captures a large part of a faint packet
+        # (added after an independently seeded change -- capture computed from a stale row signal with
+        # >= 2 species -- was missed by the other regimes)
+        k = max(k, 2)
+        p.update(beta=0.3, max_electron_volume=rng.choice([1e-10, 1.5e-10]), transfer_period=1e-3,
+                 charge_injection=False)
+        tr = [rng.choice([1e-2, 2e-2, 5e-3]) for _ in range(k)]
+        nt = [rng.choice([1e12, 5e11, 2e12]) for _ in range(k)]
+        sg = [rng.choice([1e-14, 1e-13]) for _ in range(k)]
+        fwc = rng.choice([1e4, 3e4, 1e5])
     elif style == "wide":
         tr = [10 ** rng.uniform(-7, 3) for _ in range(k)]
         nt = [10 ** rng.uniform(-3, 12) for _ in range(k)]
@@ -480,6 +491,7 @@ def gen_cdm(rng):
         nt = [rng.choice([0.0, 1e10, 1e15]) for _ in range(k)]
         sg = [rng.choice([0.0, 1e-15, 1e-10]) for _ in range(k)]
     p.update(trap_release_times=tr, trap_densities=nt, sigma=sg)
+    p["_style"] = style
     return p, fwc
 
 
@@ -681,6 +693,11 @@ def case_cdm(ctx, rng, i, hi):
         if rng.random() < 0.5:
             shape = shape[::-1]                             # ... or the other way round
     params, fwc = gen_cdm(rng)
+    style = params.pop("_style")
+    if style == "strong":
+        # many transfers before the packet (capture grows with the row index) and many empty rows after
+        # it (the over-trapped charge must have time to come back)
+        shape = (rng.randint(28, 36), rng.randint(1, 3))
     temperature = rng.choice([273.15, 300.0, 80.0, rng.uniform(30.0, 350.0)])
     fwc_from_arg = rng.random() < 0.5
     det, _ = mk_detector("ccd", shape, 0.9, fwc if not fwc_from_arg else 100000.0, temperature)
@@ -688,6 +705,15 @@ def case_cdm(ctx, rng, i, hi):
     det.empty()
     set_clock(det, 0)
     fk, frame = gen_frame(rng, shape, fwc)
+    if style == "strong":
+        # faint signal (tens of electrons) in the first rows, followed by empty rows
+        fk = "faint"
+        frame = np.zeros(shape)
+        r0 = rng.randint(16, 21)
+        if rng.random() < 0.5:
+            frame[r0, rng.randrange(shape[1])] = rng.choice([40.0, 80.0, 160.0])   # single hot pixel
+        else:
+            frame[r0:r0 + rng.randint(1, 4), :] = rng.choice([20.0, 30.0, 80.0])    # faint strip
     det.pixel.array = frame.copy()
     kw = dict(params)
     if fwc_from_arg:
